@@ -1,15 +1,17 @@
 #!/bin/bash
 # tools/seed_verify.sh <ID> <patch> <demo cmd...> : confirm a seeded change (tests still pass; demo fails with, passes without) and run our checks
-# usage: seed_verify.sh C26 /tmp/seed_C26/patch.diff "python demo.py"
-id=$1; patch=$2; shift 2; demo="$*"
+# usage: seed_verify.sh C26 [tier]   (takes patch.diff and demo.py from /tmp/seed_<ID>)
+id=$1; tier=${2:-quick}; patch=/tmp/seed_$id/patch.diff
 d=/tmp/seedv_$id
 git -C /repo worktree remove --force $d 2>/dev/null; rm -rf $d $d.verif_out
 git -C /repo worktree add -q --detach $d HEAD
 (cd /repo && find miasm -name "*.so" | while read f; do cp $f $d/$f; done)
 cd $d
+cp /tmp/seed_$id/demo.py $d/demo.py
+demo="PYTHONPATH=$d /venv/bin/python $d/demo.py"
 echo "== demo WITHOUT change"; (eval "$demo") > /tmp/seedv_$id.without.log 2>&1; echo "exit=$?"
 git apply $patch || { echo "PATCH DOES NOT APPLY"; exit 3; }
 echo "== demo WITH change"; (eval "$demo") > /tmp/seedv_$id.with.log 2>&1; echo "exit=$?"
 echo "== pinned suite WITH change"; /venv/bin/python -m pytest -q -p no:cacheprovider --timeout=900 --continue-on-collection-errors 2>&1 | tail -1
-echo "== our check (quick) WITH change"
-cd /verif && VERIF_REPO=$d timeout 1800 ./check $id --tier quick 2>&1 | grep -E "VIOLATION|KNOWN|tier=|HARNESS" | cut -c1-300 | head -8
+echo "== our check ($tier) WITH change"
+cd /verif && VERIF_REPO=$d timeout 1800 ./check $id --tier $tier 2>&1 | grep -E "VIOLATION|KNOWN|tier=|HARNESS" | cut -c1-300 | head -8
